@@ -2667,10 +2667,11 @@ func (s *Server) serveConnCounted(c net.Conn, countConcurrency bool) error {
 
 		// If a client denies a request the handler should not be called
 		if continueReadingRequest {
+			ctx.Request.bodyStreamUnread = false
 			s.Handler(ctx)
 		}
 
-		if rs, ok := ctx.Request.bodyStream.(*requestStream); ok && rs.unread() {
+		if rs, ok := ctx.Request.bodyStream.(*requestStream); (ok && rs.unread()) || ctx.Request.bodyStreamUnread {
 			// The handler left a part of the streamed request body unread.
 			// It is still in the connection and would be parsed as the next
 			// request, so close the connection after responding.
